@@ -55,6 +55,7 @@ func (vm *VM) Run() error {
 	for ip := 0; ip < len(vm.instructions); ip++ {
 		// This loop is the hot path of the vm, avoid unnecessary
 		// lookups or memory movement.
+		verifStep(vm) // no-op unless built with the "verif" tag
 		op := Opcode(vm.instructions[ip])
 		switch op {
 		case OpConstant:
